@@ -39,6 +39,10 @@ struct PolU0 { // all defaults, unaligned map, poison hooks, and the optional tr
 	void poison(void *p, size_t n) { slabh_poison(0, p, n); }
 	void unpoison(void *p, size_t n) { slabh_poison(1, p, n); }
 	void unpoison_expand(void *p, size_t n) { slabh_poison(2, p, n); }
+	// the hook names are overloaded (a policy may offer further variants of its own): detection must go by the call, not by the name
+	void poison(void *p, size_t n, int) { slabh_poison(0, p, n); }
+	void unpoison(void *p, size_t n, int) { slabh_poison(1, p, n); }
+	void unpoison_expand(void *p, size_t n, int) { slabh_poison(2, p, n); }
 	bool enable_trace() { return slabh_trace(nullptr, 0) != 0; }
 	template <class F> void walk_stack(F f) { for (uintptr_t i = 1; i <= 20; i++) f(0x1000 + i); } // deeper than the pool records
 	void output_trace(void *buffer, size_t size) { slabh_trace(buffer, size); }
